@@ -22,7 +22,8 @@ Proof.
     + simpl. unfold fallback. destruct (f_fallback fs); try discriminate.
       destruct (last_assign body None) as [x|]; [destruct (assoc x sigma)|]; discriminate.
     + destruct s as [x e|xs es|c a b|e| | |]; simpl in H.
-      * simpl. destruct (texpr fs S G sigma e); [apply IH; lia | discriminate].
+      * simpl. destruct (texpr fs S G sigma e); [apply IH; lia |].
+        destruct (assign_none fs S G sigma x e); [apply IH; lia | discriminate].
       * simpl. destruct (ttuple fs S G sigma xs es); [apply IH; lia | discriminate].
       * assert (Ha : tbody fs S G n (sapp a rest) (sapp a rest) sigma <> TOutOfFuel)
           by (apply IH; rewrite ssize_sapp; lia).
@@ -89,9 +90,12 @@ Section Equations.
   Lemma texpr_ECall sigma f args :
     texpr fs S G sigma (ECall f args) = call_with fs S (targs fs S G sigma args) f.
   Proof. reflexivity. Qed.
-  Lemma texpr_ECallKw sigma f args :
-    texpr fs S G sigma (ECallKw f args) =
-    if f_kw_refused fs then None else call_with fs S (targs fs S G sigma args) f.
+  Lemma texpr_ECallKw sigma f slots args :
+    texpr fs S G sigma (ECallKw f slots args) =
+    match f_kw fs with
+    | KwAppended => call_with fs S (targs fs S G sigma args) f
+    | _ => None
+    end.
   Proof. reflexivity. Qed.
   Lemma texpr_EOther sigma : texpr fs S G sigma EOther = None.
   Proof. reflexivity. Qed.
@@ -160,7 +164,11 @@ Section Equations.
     | SAssign x e =>
         match texpr fs S G sigma e with
         | Some v => tbody fs S G n body rest ((x, v) :: sigma)
-        | None => TRefused
+        | None =>
+            match assign_none fs S G sigma x e with
+            | Some sigma' => tbody fs S G n body rest sigma'
+            | None => TRefused
+            end
         end
     | STuple xs es =>
         match ttuple fs S G sigma xs es with
@@ -199,6 +207,17 @@ Section Equations.
     match evalc F G rho c with
     | Some true => eval F G rho a
     | Some false => eval F G rho b
+    | None => None
+    end.
+  Proof. reflexivity. Qed.
+  Lemma eval_ECallKw rho f slots args :
+    eval F G rho (ECallKw f slots args) =
+    match evals F G rho args with
+    | Some vs =>
+        match arrange slots vs with
+        | Some vs' => match nth_error F (N.to_nat f) with Some g => g vs' | None => None end
+        | None => None
+        end
     | None => None
     end.
   Proof. reflexivity. Qed.
@@ -336,7 +355,7 @@ Fixpoint unsupported_e (e : expr) : bool :=
   | EBin op a b => match op with BinOther => true | _ => unsupported_e a || unsupported_e b end
   | EIfExp c a b => unsupported_c c || unsupported_e a || unsupported_e b
   | ECall _ args => unsupported_es args
-  | ECallKw _ _ => true
+  | ECallKw _ _ _ => true
   | EOther => true
   end
 with unsupported_c (c : cond) : bool :=
@@ -386,7 +405,7 @@ Proof.
         [destruct (texpr expected_facts S G sigma a)|]; reflexivity.
   - (* ECall *) intros f args IH H sigma. rewrite texpr_ECall. simpl in H.
     rewrite (IH H sigma). reflexivity.
-  - (* ECallKw *) intros f args IH H sigma. reflexivity.
+  - (* ECallKw *) intros f slots args IH H sigma. reflexivity.
   - (* EOther *) intros H sigma. reflexivity.
   - (* CCmp *) intros l IHl rest IHr H sigma. rewrite tcond_CCmp. simpl in H.
     apply orb_true_iff in H. destruct H as [H|H].
@@ -424,6 +443,10 @@ Lemma unsupported_stmt_refused : forall fs, fs = expected_facts -> forall S G fu
 Proof. intros fs Hfs S G fuel body rest sigma. subst fs. split; reflexivity. Qed.
 
 (** * Soundness *)
+
+(** the shipped code refuses `x = e` when e has no expression, whatever the reason *)
+Lemma assign_none_ef : forall S G sigma x e, assign_none expected_facts S G sigma x e = None.
+Proof. reflexivity. Qed.
 
 Lemma ef_arity_cases :
   f_arity expected_facts = ArityStrict \/ f_arity expected_facts = ArityStrictNonEmpty.
@@ -656,7 +679,9 @@ Section Sound.
         pose proof (IH _ _ _ _ Hi Hta Hev) as Hargs.
         pose proof (Forall2_nth _ _ _ Htab _ _ _ HF HS) as Hrel.
         exact (apply_subs_sound _ _ _ _ _ _ _ _ Hrel Hargs He Hn Ht).
-      - (* ECallKw *) intros f args IH sigma rho s v Hi Ht He. discriminate He.
+      - (* ECallKw: has a meaning in Python (bound by name), no translation *)
+        intros f slots args IH sigma rho s v Hi Ht He.
+        rewrite texpr_ECallKw in Ht. change (f_kw ef) with KwRefused in Ht. discriminate Ht.
       - (* EOther *) intros sigma rho s v Hi Ht He. discriminate He.
       - (* CCmp *) intros l IHl rest IHr sigma rho c' b Hi Ht He.
         rewrite tcond_CCmp in Ht. rewrite evalc_CCmp in He.
@@ -732,7 +757,8 @@ Section Sound.
         + rewrite tbody_SCons in Ht. rewrite exec_SCons in He.
           destruct s as [x e0|xs es|c a b|e0| | |]; red_in Ht.
           * (* SAssign *) rewrite exec1_SAssign in He.
-            destruct (texpr ef S G sigma e0) as [sv|] eqn:Hte; [|discriminate Ht].
+            destruct (texpr ef S G sigma e0) as [sv|] eqn:Hte;
+              [|rewrite assign_none_ef in Ht; discriminate Ht].
             destruct (eval F G rho e0) as [v0|] eqn:Hee; red_in He; [|discriminate He].
             eapply IH; [|exact Ht|exact He].
             apply inv_cons; [exact Hi|]. exact (expr_sound _ _ _ _ _ Hi Hte Hee).
